@@ -43,6 +43,8 @@ func main() {
 		rc := sim.RunExplore(cfg, *out, *maxStates, *depth)
 		pprof.StopCPUProfile()
 		os.Exit(rc)
+	case "init":
+		os.Exit(sim.RunInit(cfg, os.Stdout))
 	case "replayjson":
 		os.Exit(sim.RunReplayJSON(cfg, *path, *out, os.Stdout))
 	}
